@@ -356,8 +356,9 @@ Law_Lookups(t) ==
   /\ MapCodonCodes(t, [k \in 1..64 |-> ToCodon(k - 1)]).val = CodonDictCodes(t)
   /\ {n \in CodonNums : IsStartCodon(t, <<ToCodon(n)>>)[1]} = StartSet(t)
   \* a table built from its own dictionary and start codons is the same table (tests/sequence/test_codon.py)
-  /\ Construct([k \in 1..64 |-> <<CodonWord(k - 1), CodonDictSyms(t)[k]>>],
-               [i \in DOMAIN t.starts |-> CodonWord(t.starts[i])]) = Ok(t)
+  /\ Bind(Construct([k \in 1..64 |-> <<CodonWord(k - 1), CodonDictSyms(t)[k]>>],
+                     [i \in DOMAIN t.starts |-> CodonWord(t.starts[i])]), LAMBDA r :
+          r = Ok(t) /\ TableEq(t, r.val) /\ TableEqDecided(t, r.val))
   /\ StrEntriesImpl(t) = StrEntriesCut(t)                   \* the code's rendering, see StrEntriesCut
   /\ (StrEntriesCut(t) = StrEntries(t)) = (\A n \in StartSet(t) : n % 4 # 3)
 Law_Load(text, key) == Dom_TableText(text) => LoadImpl(text, key) = LoadDecl(text, key)
